@@ -34,7 +34,7 @@ pub fn spec() -> CheckSpec {
     ],
     real_components: "deno_graph analysis (serde of ModuleInfo, module_graph_1_to_2), JsrPackageVersionInfo::module_info, load_jsr_subpath (probe, ProvidedModuleAnalyzer, deferred content load), handle_jsr_registry_pending_content_loads",
     stub_components: "Loader serving four renderings of the simulated registry; other seams simulated",
-    quick_cases: 3000,
+    quick_cases: 5000,
     thorough_cases: 150000,
     run_case,
     systematic: |_| 0,
